@@ -5,6 +5,7 @@ from props import c09 as c9
 
 PROP_FILES = ['Properties/C07']
 TRUSTED = [
+    'hand-written model coq/Model/ServerInit.v of InitState / parseProxyBook / parseRedirAddr / IsBypass (net.ResolveIPAddr, ResolveTCPAddr/UDPAddr and bolt.Open are parameters; strings.ToLower modelled on ASCII; Go map iteration order not represented: ProxyBook is its key set), tied to the code by the configuration cases of the correspondence (error class, AdminUID, bypass key set, ProxyBook keys, manager kind, KeepAlive, StaticPv, redirect host and port compared on every run)',
     'Coq 8.16.1 kernel incl. vm_compute; theorems C07_*: Closed under the global context. X25519 and AES-GCM are universally quantified parameters of the decision model (hypothesis in the statements: opening strips the 16-byte tag - proved of the Gallina AES-GCM, Proofs/Crypto.v gcm_open_length)',
     'SECTION HYPOTHESIS dh_rejects_low_order (forall pv u, low_order u = true -> dh pv u = None) of C07_accepted_not_low_order / C07_session_not_low_order / C07_low_order_tls_is_web / C07_low_order_ws_is_web: the key agreement fails on small-order input, as crypto/ecdh documents ("bad X25519 remote ECDH input: low order point"). It is a THEOREM (C07_x25519_rejects_low_order, all 2^256 private keys, ladder invariant in Proofs/LowOrder.v) of the Gallina X25519 the correspondence runs; for Go\'s X25519 it is observed on every run: the driver checks that Go\'s error occurs exactly on the ephemeral values Model/LowOrder.v calls small-order (all 14 encodings x both transports, and none of the other ~11 000 values)',
     'hypotheses dh_nonzero (a shared secret has 32 bytes and is not all-zero) and open_is_seal (whatever opens under (k, n) is the AES-GCM sealing under (k, n)) of C07_accepted_key_nonzero / C07_accepted_is_sealed are theorems of the Gallina X25519 / AES-GCM (C07_accepted_key_nonzero_x25519, C07_accepted_is_sealed_x25519_gcm have no hypothesis)',
@@ -15,6 +16,8 @@ TRUSTED = [
     'time.Time arithmetic of the standard library is modelled (seconds since year 1 in an int64, nanoseconds separately), not verified; net/http + base64 (WebSocket hidden header), uTLS, bbolt are black boxes',
 ]
 ASSUMPTIONS = [
+    'configuration layer: the State is built by the REAL InitState from generated RawConfigs (no admin / admin only / bypass lists with duplicates, adjacent duplicates, the admin listed as bypass / database path with and without admin / ProxyBook names and networks in mixed case, unknown networks, wrong pair lengths, bad addresses / RedirAddr forms / KeepAlive / empty and short private key / CncMode) and first packets of the all-zero UID, the admin UID, each bypass UID, a database UID and one-bit neighbours are run against it; offline: RedirAddr and proxy addresses are IP literals (the resolvers are parameters of the model, their results are taken from the Go run), the database is a fresh bolt file in a temporary directory',
+    'wf_uids: the configuration theorems (C07_config_*) and the oracle assume every configured BypassUID / AdminUID has exactly 16 bytes. InitState copies all entries into ONE shared 16-byte array: an entry shorter than 16 bytes inherits the tail of the entry before it (zeros for the first - an EMPTY first entry registers the all-zero UID), a longer one is cut (C07_config_short_entry_inherits). Such configurations are generated too; for them only model and implementation are compared (they agree), the oracle is silent - reported to the integrator as an observation about the unchanged code',
     'the sealed block binds the ephemeral value only cryptographically: "unmodified" in the oracle means random (bit 255 excepted: X25519 ignores it), session id and X25519 key share bytes are those of the genuine packet',
     'forged first packets (oracle: never accepted): ephemeral value = each of the 14 small-order encodings and the 5 encodings that are small-order only without bit-255 masking, block sealed by the sender under the all-zero key (and under 0x01.. as a control), plaintext naming a bypass UID or the admin UID with session id 0, on both transports',
     'timestamps below 2^62 for the window theorems (time.Unix wraps beyond; the model reproduces the wrap and the run samples it)',
@@ -586,6 +589,7 @@ def config_specs():
         (mkcfg('none'), std(ZERO, CB1, flip(ZERO, 0), flip(ZERO, 127))),
         (mkcfg('bypass1', bypass=[CB1]), std(ZERO, CB1, flip(CB1, 0), flip(CB1, 127), CB2)),
         (mkcfg('bypass-dup', bypass=[CB1, CB2, CB1]), std(ZERO, CB1, CB2, flip(CB2, 64))),
+        (mkcfg('bypass-dup-adjacent', bypass=[CB1, CB1, CB2, CDB, CDB]), std(CB1, CB2, CDB, ZERO)),
         (mkcfg('admin-only', admin=CA), std(ZERO, CA, flip(CA, 5), CB1) + [(CA, 0, 'shadowsocks'), (CA, 0, 'nosuchmethod'), (ZERO, 0, 'shadowsocks')]),
         (mkcfg('admin+bypass', admin=CA, bypass=[CB1, CA, CB2]), std(ZERO, CA, CB1, CB2, flip(CB1, 1)) + [(CA, 0, 'openvpn')]),
         (mkcfg('admin+db', admin=CA, db=True, users=CFG_USERS, bypass=[CB1]), std(ZERO, CDB, flip(CDB, 0), CB1, CA)),
@@ -867,6 +871,6 @@ def replay(ctx, verdict):
 
 MANIFEST = dict(
     technique='Coq proof that the decision function accepts exactly the valid credentials (iff theorems over all packets, states and clocks), window-edge arithmetic incl. the truncation to seconds; model tied to the code by differential execution of the real AuthFirstPacket and dispatchConnection against the extracted model (Gallina AES-GCM; X25519 from a Go table, sampled with the Gallina ladder); oracle from the property text',
-    level_text='C07_sound_complete_proxy, C07_admin_gate, C07_auth_first_packet, C07_authorised_uid, C07_else_web, C07_else_no_server_byte are proved for every first packet (arbitrary bytes), every server state and clock and every X25519 / AES-GCM whose opening strips the tag; C07_window* state the strict window in nanoseconds and in whole seconds for timestamps below 2^62. Key agreement: X25519 is an option-valued function (error branch of crypto/ecdh); C07_x25519_rejects_low_order proves for the Gallina ladder that every small-order input is refused under every private key, C07_low_order_list that these are exactly 14 strings, C07_accepted_not_low_order(_x25519) / C07_low_order_tls_is_web / C07_low_order_ws_is_web that such packets are web traffic on both transports, C07_accepted_key_nonzero(_x25519) that the AEAD key of an accepted packet is never all-zero, C07_accepted_is_sealed(_x25519_gcm) that its block is the AES-GCM sealing under X25519(server private key, its ephemeral value). The model is hand-written; every run compares it with the real code on ~11 000 (quick) variants: all single-bit flips of a firefox hello and of a WebSocket GET, sampled ones of chrome/safari, random mutations, clock offsets around both edges at nanosecond resolution, 30 authorisation variants on both transports over 7 server configurations.',
+    level_text='C07_sound_complete_proxy, C07_admin_gate, C07_auth_first_packet, C07_authorised_uid, C07_else_web, C07_else_no_server_byte are proved for every first packet (arbitrary bytes), every server state and clock and every X25519 / AES-GCM whose opening strips the tag; C07_window* state the strict window in nanoseconds and in whole seconds for timestamps below 2^62. Configuration: C07_config_bypass_exact / _nothing_configured / _get_user / _void_get_user / _admin / _book characterise the State InitState builds from a RawConfig (bypass set = exactly the configured BypassUID entries plus the configured AdminUID; nothing when none is configured; Voidmanager unless AdminUID and DatabasePath are both set; served methods = lower-cased names with network tcp/udp), and C07_config_proxy_sound / _bypass_served / _unconfigured_is_web compose them with the decision. Key agreement: X25519 is an option-valued function (error branch of crypto/ecdh); C07_x25519_rejects_low_order proves for the Gallina ladder that every small-order input is refused under every private key, C07_low_order_list that these are exactly 14 strings, C07_accepted_not_low_order(_x25519) / C07_low_order_tls_is_web / C07_low_order_ws_is_web that such packets are web traffic on both transports, C07_accepted_key_nonzero(_x25519) that the AEAD key of an accepted packet is never all-zero, C07_accepted_is_sealed(_x25519_gcm) that its block is the AES-GCM sealing under X25519(server private key, its ephemeral value). The model is hand-written; every run compares it with the real code on ~11 000 (quick) variants: all single-bit flips of a firefox hello and of a WebSocket GET, sampled ones of chrome/safari, random mutations, clock offsets around both edges at nanosecond resolution, 30 authorisation variants on both transports over 7 server configurations.',
     level_note='Trusted: Coq kernel, extraction, the Go X25519 table (sampled against the Gallina ladder; its error set compared with the proved small-order predicate on every case), time.Time modelled, net/http+base64 black box. Unforgeability of the sealed block (nobody computes the X25519 secret / an AES-GCM sealing without a key) is computational: probed by the flips and the forged packets, not proved.',
     design_ref='DESIGN.md section 6, C07')
